@@ -152,6 +152,220 @@ func goRomW(size, sd uint32, a, b []byte) (reply string, roundtripOK bool) {
 	return fmt.Sprintf("v0=%d same=%s outside=%s hdr=%s", v0, b01(same), b01(outside), hex.EncodeToString(img[0x7FB0:0x8000])), roundtripOK
 }
 
+// ---- entry points handed readers / writers that are positioned mid-stream, and images of irregular sizes ----
+
+func hashBytes(sd uint64, n int) []byte {
+	b := make([]byte, n)
+	for i := range b {
+		b[i] = prng.Hash(sd, uint32(i))
+	}
+	return b
+}
+
+var positionHow = []string{"Seek(start)", "Read(prefix)", "Seek(end)", "Read+Seek(current)", "ReadByte/UnreadByte", "read past then Seek back"}
+
+// goParseAt: Header.ReadHeader on a reader over prefix ++ b ++ suffix whose read position was moved to len(prefix) in one of
+// several ways. The property decodes every field from the bytes the reader is standing on ($FFB0.. of the cartridge), so the
+// result must be what a fresh reader over exactly b gives.
+func goParseAt(b []byte, pre, suf, how int, sd uint64) string {
+	buf := append(append(hashBytes(sd, pre), b...), hashBytes(sd+1, suf)...)
+	rd := bytes.NewReader(buf)
+	switch how {
+	case 0:
+		rd.Seek(int64(pre), 0)
+	case 1:
+		if pre > 0 {
+			rd.Read(make([]byte, pre))
+		}
+	case 2:
+		rd.Seek(-int64(len(b)+suf), 2)
+	case 3:
+		k := pre / 2
+		if k > 0 {
+			rd.Read(make([]byte, k))
+		}
+		rd.Seek(int64(pre-k), 1)
+	case 4:
+		rd.Seek(int64(pre), 0)
+		if _, err := rd.ReadByte(); err == nil {
+			rd.UnreadByte()
+		}
+	default:
+		rd.Seek(0, 2)
+		rd.Seek(int64(pre), 0)
+	}
+	var h snes.Header
+	if err := h.ReadHeader(rd); err != nil {
+		return "err"
+	}
+	return showHeaderGo(&h)
+}
+
+// goSerInto: Header.WriteHeader into a buffer that already holds bytes (optionally partly consumed, optionally a window with spare
+// capacity inside a larger array). Returns the unread contents of the buffer afterwards and whether the bytes around the window
+// are untouched.
+func goSerInto(b []byte, pre, consumed, spare, kind int, sd uint64) (out []byte, guardOK bool, ok bool) {
+	var h snes.Header
+	if err := h.ReadHeader(bytes.NewReader(b)); err != nil {
+		return nil, true, false
+	}
+	prefix := hashBytes(sd, pre)
+	var buf *bytes.Buffer
+	var big, bigOrig []byte
+	switch kind {
+	case 0: // NewBuffer over a copy of the prefix (capacity exactly the prefix)
+		buf = bytes.NewBuffer(append(make([]byte, 0, pre), prefix...))
+	case 1: // zero Buffer, prefix written in two pieces
+		buf = &bytes.Buffer{}
+		buf.Write(prefix[:pre/2])
+		buf.Write(prefix[pre/2:])
+	default: // window with spare capacity into a larger array
+		big = hashBytes(sd+2, 16+pre+spare+16)
+		copy(big[16:], prefix)
+		bigOrig = append([]byte{}, big...)
+		buf = bytes.NewBuffer(big[16 : 16+pre : 16+pre+spare])
+	}
+	if consumed > pre {
+		consumed = pre
+	}
+	if consumed > 0 {
+		buf.Next(consumed)
+	}
+	if err := h.WriteHeader(buf); err != nil {
+		return nil, true, false
+	}
+	guardOK = true
+	if big != nil {
+		// the Buffer owns its whole window (it may slide unread data down over consumed bytes); only the array around it is guarded
+		guardOK = bytes.Equal(big[:16], bigOrig[:16]) && bytes.Equal(big[16+pre+spare:], bigOrig[16+pre+spare:])
+	}
+	return append([]byte{}, buf.Bytes()...), guardOK, true
+}
+
+// romOracle: the ROM-level entry points on an image of any size >= 32 KiB, given as a plain slice or as a window inside a larger
+// array. Clauses, all from the property text: the header is decoded from the documented offsets ($FFB0-$FFFF = file $7FB0-$7FFF
+// of a LoROM image) of the image given; ReadHeader then WriteHeader leaves the whole image (and everything around it) unchanged;
+// ROM.Contents is the image given; changing one header byte of the image and re-reading changes the parse accordingly.
+// Returns (clause, expected, actual) triples.
+func romOracle(size, lead, trail int, capLimited bool, sd uint64, a []byte, flipAt int, flipTo byte, altOffset bool) (fails [][3]string) {
+	fail := func(c, e, g string) { fails = append(fails, [3]string{c, e, g}) }
+	big := hashBytes(sd, lead+size+trail)
+	img := big[lead : lead+size]
+	if capLimited {
+		img = big[lead : lead+size : lead+size]
+	}
+	copy(img[0x7FB0:], a)
+	orig := append([]byte{}, big...)
+	rom, err := snes.NewROM("x", img)
+	if err != nil {
+		fail("NewROM accepts every image of at least 32 KiB", "no error", err.Error())
+		return
+	}
+	if len(rom.Contents) != len(img) || &rom.Contents[0] != &img[0] {
+		fail("ROM.Contents is the image given (header and contents refer to the whole image)", fmt.Sprintf("len=%#x, same first byte", len(img)),
+			fmt.Sprintf("len=%#x, same first byte=%v", len(rom.Contents), len(rom.Contents) > 0 && &rom.Contents[0] == &img[0]))
+	}
+	if got, want := showHeaderGo(&rom.Header), oracleParse(img[0x7FB0:0x8000]); got != want {
+		fail("NewROM: header fields decoded from the documented offsets $7FB0-$7FFF of the image given", want, got)
+	}
+	if err := rom.WriteHeader(); err != nil {
+		fail("WriteHeader completes", "no error", err.Error())
+	}
+	if !bytes.Equal(big, orig) {
+		fail("ReadHeader then WriteHeader leaves the image byte-for-byte unchanged", "image (and the bytes around it) unchanged", "first difference at image offset "+firstByteDiff(big, orig, lead))
+		copy(big, orig)
+	}
+	// one header byte of the image changes: a re-read follows it
+	img[0x7FB0+flipAt] = flipTo
+	copy(orig, big)
+	if err := rom.ReadHeader(); err != nil {
+		fail("ROM.ReadHeader completes", "no error", err.Error())
+	}
+	if got, want := showHeaderGo(&rom.Header), oracleParse(img[0x7FB0:0x8000]); got != want {
+		fail(fmt.Sprintf("ROM.ReadHeader after image byte $%04X changed: fields decoded from the documented offsets of the image", 0x7FB0+flipAt), want, got)
+	}
+	if err := rom.WriteHeader(); err != nil {
+		fail("WriteHeader completes", "no error", err.Error())
+	}
+	if !bytes.Equal(big, orig) {
+		fail("ReadHeader then WriteHeader leaves the image byte-for-byte unchanged", "image (and the bytes around it) unchanged", "first difference at image offset "+firstByteDiff(big, orig, lead))
+		copy(big, orig)
+	}
+	if altOffset && size >= 0x10000 {
+		// the header location is an exported field: a caller that points it at $FFB0 of the file (HiROM placement)
+		rom.HeaderOffset = 0xFFB0
+		if err := rom.ReadHeader(); err != nil {
+			fail("ROM.ReadHeader completes", "no error", err.Error())
+		}
+		if got, want := showHeaderGo(&rom.Header), oracleParse(img[0xFFB0:0x10000]); got != want {
+			fail("ROM.ReadHeader with HeaderOffset=$FFB0: fields decoded from that offset of the image", want, got)
+		}
+		if err := rom.WriteHeader(); err != nil {
+			fail("WriteHeader completes", "no error", err.Error())
+		}
+		if !bytes.Equal(big, orig) {
+			fail("ReadHeader then WriteHeader (HeaderOffset=$FFB0) leaves the image byte-for-byte unchanged", "image unchanged", "first difference at image offset "+firstByteDiff(big, orig, lead))
+		}
+	}
+	return
+}
+
+func sizeClass(size int) string {
+	switch m := size & 0x7FFF; {
+	case m == 0:
+		return "0"
+	case m == 1:
+		return "1"
+	case m == 0x7FFF:
+		return "$7FFF"
+	case m == 0x200:
+		return "$200"
+	case m == 0x1FF || m == 0x201:
+		return "$200+-1"
+	case m&(m-1) == 0:
+		return "2^k"
+	case m&1 == 1:
+		return "odd"
+	default:
+		return "even"
+	}
+}
+
+func firstByteDiff(a, b []byte, lead int) string {
+	for i := range a {
+		if i >= len(b) || a[i] != b[i] {
+			return fmt.Sprintf("%#x", i-lead)
+		}
+	}
+	return "?"
+}
+
+// irregularSize: image sizes that are not multiples of 32 KiB: one past / one short of a bank multiple, +512 and its neighbours,
+// odd sizes, small power-of-two leftovers.
+func irregularSize(r *prng.R) int {
+	base := 0x8000 * (1 + r.N(6))
+	switch r.N(10) {
+	case 0:
+		return base
+	case 1:
+		return base + 1
+	case 2:
+		return base + 0x200
+	case 3:
+		return base + 0x200 + 1 - 2*r.N(2)
+	case 4:
+		return base + 0x8000 - 1
+	case 5:
+		return base + (1 << uint(r.N(15)))
+	case 6:
+		return base + (1 << uint(1+r.N(14))) + 1 - 2*r.N(2)
+	case 7:
+		return base + 0x50 + r.N(0x400)
+	default:
+		return base + r.N(0x8000)
+	}
+}
+
 // documented little-endian decoding of a header, written independently from the code: (name, offset, size, isArray)
 var documentedFields = []struct {
 	name string
@@ -254,7 +468,7 @@ func runHeader() {
 		rep.Add(report.Finding{Property: "C09", Kind: "violation", Clause: clause, Input: in, Expected: exp, Actual: act})
 	}
 	distinct := map[string]bool{}
-	sizes := []uint32{0x8000, 0x8001, 0x10000, 0x28000}
+	sizes := []uint32{0x8000, 0x8001, 0x10000, 0x28000, 0x8200, 0x81FF, 0x8201, 0xFFFF, 0x10200, 0x18200, 0x8003, 0x28001}
 	for i := 0; i < n; i++ {
 		b := genHeaderBytes(r, rep)
 		hx := hex.EncodeToString(b)
@@ -318,6 +532,78 @@ func runHeader() {
 			}
 			rep.Count("header: re-parse on the same object")
 		}
+		if i%3 == 1 {
+			// Header.ReadHeader on a reader standing mid-stream inside a larger buffer (also: the whole image, seeked to the header)
+			pre, suf := 1+r.N(0x120), r.N(0x60)
+			switch r.N(8) {
+			case 0:
+				pre, suf = 0x7FB0, 0
+			case 1:
+				pre, suf = 0xFFB0, 0x8000*r.N(2)
+			case 2:
+				pre = []int{1, 15, 16, 0x4F, 0x50, 0x51, 0x100, 0x200}[r.N(8)]
+			}
+			how := r.N(len(positionHow))
+			sd := uint64(r.N(1 << 20))
+			in := fmt.Sprintf("hdr parse-at prefix=%#x suffix=%#x positioned-by=%q bg=%x %s", pre, suf, positionHow[how], sd, hx)
+			if got := goParseAt(b, pre, suf, how, sd); got != gp {
+				addViolation("Header.ReadHeader on a reader positioned mid-stream decodes the 80 bytes at the reader's position (same as a fresh reader over them)", in, gp, got)
+			}
+			rep.Count("header: ReadHeader mid-stream, " + positionHow[how])
+			distinct[fmt.Sprintf("parse-at/%d/%v", how, pre >= 0x7FB0)] = true
+			if i%9 == 1 {
+				// too few bytes left after the position: must fail like a fresh short reader
+				cut := r.N(80)
+				if got, want := goParseAt(b[:cut], pre, 0, how, sd), goParse(b[:cut]); got != want {
+					// the property does not speak about short inputs: a difference from the fresh short reader is a broken correspondence, not a violation
+					rep.Add(report.Finding{Property: "C09", Kind: "disagreement", Clause: "Header.ReadHeader on a reader positioned mid-stream with fewer than 80 bytes left behaves like a fresh short reader",
+						Input: fmt.Sprintf("hdr parse-at prefix=%#x suffix=0 positioned-by=%q bg=%x %s", pre, positionHow[how], sd, hex.EncodeToString(b[:cut])), Expected: want, Actual: got})
+				}
+				rep.Count("header: ReadHeader mid-stream, short")
+			}
+			// Header.WriteHeader into a writer that already holds bytes
+			wpre, kind := 1+r.N(0x90), r.N(3)
+			consumed, spare := 0, []int{0, 1, 79, 80, 81, 200}[r.N(6)]
+			if r.Chance(40) {
+				consumed = r.N(wpre + 1)
+			}
+			if sb, err := hex.DecodeString(gs); err == nil {
+				out, guardOK, ok := goSerInto(b, wpre, consumed, spare, kind, sd)
+				c := consumed
+				want := append(append([]byte{}, hashBytes(sd, wpre)[c:]...), sb...)
+				win := fmt.Sprintf("hdr ser-into held=%#x consumed=%#x spare-cap=%d kind=%d bg=%x %s", wpre, consumed, spare, kind, sd, hx)
+				if !ok {
+					addViolation("Header.WriteHeader into a writer that already holds bytes completes", win, "no error", "error")
+				} else if !bytes.Equal(out, want) {
+					addViolation("Header.WriteHeader appends exactly the 80 bytes a fresh writer receives, after the bytes the writer already holds", win, hex.EncodeToString(want), hex.EncodeToString(out))
+				} else if !guardOK {
+					addViolation("Header.WriteHeader changes nothing outside the bytes it appends", win, "bytes around the buffer window unchanged", "changed")
+				}
+				rep.Count(fmt.Sprintf("header: WriteHeader into a holding writer, kind %d", kind))
+			}
+		}
+		if i%4 == 2 {
+			// ROM entry points over images of irregular sizes, plain or as a window inside a larger array
+			size := irregularSize(r)
+			lead, trail, capLim := 0, 0, false
+			if r.Chance(40) {
+				lead, trail, capLim = r.N(0x300), r.N(0x300), r.Bool()
+			}
+			sd := uint64(r.N(1 << 20))
+			fk := r.N(80)
+			ft := r.U8()
+			if r.Chance(30) {
+				fk = []int{0x24, 0x2A, 0x27, 0x25}[r.N(4)]
+				ft = []byte{0, 0x33, 0x20, 8}[r.N(4)]
+			}
+			alt := r.Chance(25)
+			in := fmt.Sprintf("hdr rom-oracle size=%#x lead=%#x trail=%#x cap-limited=%v bg=%x flip=$%04X:=%02x alt-offset=%v %s", size, lead, trail, capLim, sd, 0x7FB0+fk, ft, alt, hx)
+			for _, f := range romOracle(size, lead, trail, capLim, sd, b, fk, ft, alt) {
+				addViolation(f[0], in, f[1], f[2])
+			}
+			rep.Count(fmt.Sprintf("header: rom image size mod 32 KiB = %s", sizeClass(size)))
+			distinct[fmt.Sprintf("rom-oracle/%s/%v", sizeClass(size), lead > 0)] = true
+		}
 		if i%4 == 0 {
 			sz := sizes[r.N(len(sizes))]
 			sd := uint32(r.N(8))
@@ -326,6 +612,7 @@ func runHeader() {
 				bb = b
 			}
 			reply, rt := goRomW(sz, sd, b, bb)
+			rep.Count(fmt.Sprintf("header: romw image size %#x", sz))
 			if historyDependent {
 				addViolation("WriteHeader's result depends on earlier calls on the same ROM object (a fresh ROM with the same Header and image writes different bytes)", fmt.Sprintf("hdr romw %x %x %s %s", sz, sd, hx, hex.EncodeToString(bb)), "same bytes as a fresh object", "different bytes")
 			}
@@ -356,10 +643,13 @@ func runHeader() {
 			}
 		}
 	}
-	rep.Evaluations = int64(len(reqs)) + int64(n)*3
+	rep.Evaluations = int64(len(reqs)) + int64(n)*3 + int64(n/3)*2 + int64(n/4)*6
 	rep.Distinct = int64(len(distinct))
 	rep.Rule = "random 80-byte headers biased to versions 1/2/3 (and both markers), zero / non-zero extended area, single-byte perturbations of all 80 positions, short inputs, " +
-		"images of 32 KiB, 32 KiB+1, 64 KiB, 160 KiB with the header parsed from another byte string written in; compared: every exported field, the version, the serialised bytes, the whole image. " +
+		"images of 32 KiB, 32 KiB+1, 64 KiB, 160 KiB and irregular sizes (n*32 KiB +1, -1, +512, +511/513, +2^k, odd) with the header parsed from another byte string written in; " +
+		"Header.ReadHeader on readers positioned mid-stream inside larger buffers (six ways of positioning, whole images seeked to the header, short remainders), Header.WriteHeader into writers already holding " +
+		"(partly consumed) bytes or windows with spare capacity, ROM entry points on images given as windows inside larger arrays, one image byte changed then re-read, HeaderOffset moved to $FFB0; " +
+		"compared: every exported field, the version, the serialised bytes, the whole image and the bytes around it, ROM.Contents identity. " +
 		"distinct_nontrivial = distinct (operation, version, perturbed field / image size) classes"
 	rep.Emit()
 }
